@@ -269,8 +269,9 @@ def _job(job, emit):
             emit("rec", rec)
             continue
         rec["status"] = "accepted"
-        rec["text_a"] = str(p)
-        rec["text_b"] = str(q)
+        from .edges import _safe_str
+        rec["text_a"] = _safe_str(p)
+        rec["text_b"] = _safe_str(q)
         signal.alarm(120)
         try:
             check_edge(p, curs_p, q, rec)
